@@ -470,7 +470,7 @@ def finish(ctx, level='model_checking', rule='', extra=None):
     ev = dict(property_id=ctx.pid, tier=ctx.tier, seed=ctx.seed, level=level, coverage=cov,
               assumptions=ctx.assumptions, wall_s=round(time.time() - ctx.t0, 1), violations=len(ctx.violations))
     # trial runs against a scratch tree (tools/trymutant.sh) must not overwrite the evidence of the real tree
-    evdir = os.environ.get('VERIF_EVIDENCE_DIR') or os.path.join(VERIF, 'evidence')
+    evdir = os.environ.get('VERIF_EVIDENCE_DIR') or (os.path.join(VERIF, '.work', 'evidence-trials') if os.environ.get('VERIF_REPO') else os.path.join(VERIF, 'evidence'))
     os.makedirs(evdir, exist_ok=True)
     with open(os.path.join(evdir, ctx.pid + '.json'), 'w') as f:
         json.dump(ev, f, indent=1, sort_keys=True)
